@@ -3,6 +3,7 @@
 //! Each "world" binds one TLA+ module to the real crates: it executes
 //! behaviours / cases emitted by TLC against the implementation and
 //! compares the projected real state with the specification's state.
+pub mod eventlog_world;
 pub mod summary;
 pub mod term;
 pub mod tree_world;
